@@ -133,7 +133,17 @@ def forms():
         "rule r\n  command = again\n", "rule s\n  depfile = x\n", "rule s\n  command = c\n  foo = bar\n",
         "rule s\n  command = c\n  rspfile = x\n", "pool p\n  depth = 1\n", "pool q\n", "pool q\n  depth = -1\n", "pool q\n  deep = 1\n",
         "build a: r x\n\tfoo = 1\n", "\tbuild a: r x\n", "build a: r x |@\n", "build: r x\n", "build a r x\n", "build a:\n",
-        "x = 1\ny = $x$x\nbuild $y: r ${y}z\n", "build a: r x\r\n  pool = p\r\n", "# c\n  # indented comment\nbuild a: r x\n  # c\n  pool = p\n",
+        "x = 1\ny = $x$x\nbuild $y: r ${y}z\n",
+        # reserved rule variables bound only at file level: the documented lookup order (build block, rule, file) finds them
+        "rspfile = top.rsp\nrspfile_content = $in_newline\ndepfile = top.d\ndescription = topdesc\nbuild a: r x\n",
+        "rspfile = top.rsp\nrspfile_content = c\nrule s\n  command = s $rspfile $depfile\nbuild a: s x\n",
+        "rspfile_content = c\nrule s\n  command = s\n  rspfile = own.rsp\nbuild a: s x\n",
+        "command = filecmd\nrule s\n  description = d\nbuild a: s x\n",
+        # a rule-level pool / dyndep binding that uses $out / $in is expanded in the build's scope like any rule variable
+        "pool p_a\n  depth = 1\nrule s\n  command = c $pool\n  pool = p_$out\nbuild a: s x\n",
+        "pool p_x\n  depth = 1\npool p_\n  depth = 3\nrule s\n  command = c $pool\n  pool = p_$in\nbuild a: s x\n",
+        "rule s\n  command = c\n  dyndep = $in\nbuild a: s x\n",
+        "deps = gcc\nrestat = 1\ngenerator = 1\npool = p\ndyndep = x\nbuild a: r x\n", "build a: r x\r\n  pool = p\r\n", "# c\n  # indented comment\nbuild a: r x\n  # c\n  pool = p\n",
     ]
     for i, t in enumerate(extra):
         yield ("formx#%d" % i, {"build.ninja": rule + t})
@@ -154,6 +164,9 @@ def forms():
                     l += " ||" + "".join(" " + x for x in oo)
                 n += 1
                 yield ("phonyself#%d" % n, {"build.ninja": l + "\nbuild user: phony a\n"})
+                # ... and with nothing else naming it: once the self reference is dropped it is a root (built by default)
+                n += 1
+                yield ("phonyself#%d" % n, {"build.ninja": l + "\nbuild other: phony b\n"})
 
 
 LEX_TOKENS = ["a", "$$", "$ ", "$:", "$\n", "${x}", "$x", "$^", ".", "/", "..", ":", "|", " ", "\r\n", "\t", "#", "$", "${", "}", "=", "$\r\n  "]
